@@ -42,7 +42,7 @@ def run_history(case, want_inv=True, want_atomic=True, stop_on_first=True):
     """
     setup = case.get("setup", 1)
     ops = case.get("ops", [])
-    u = U.Universe(setup)
+    u = U.Universe(setup, case.get('safe', False))
     res = dict(inv_fail=None, atomic_fails=[], raised=0, executed=0, multi_role=False, dup_entry=False,
                moved=False, rejected_multi=False, mutating=0, raised_ops=[], u=u)
     if want_inv:
